@@ -25,6 +25,8 @@ def c_step(st):
         x = "LPublish [%s]" % ms
     elif k == "follower":
         x = "LFollower %s (%d)" % (coq_N(rep(st["r"])), st["o"])
+    elif k == "stale":
+        x = "LFollower 0 (0)"   # a request from an earlier leader epoch is dropped: no step of the model
     elif k == "shrink":
         x = "LShrink %s" % coq_N(rep(st["r"]))
     else:
